@@ -48,7 +48,7 @@ inductive HAns | done | wantR | wantW | err
 inductive CAns | established | notYet | failed
   deriving DecidableEq, Repr
 
-inductive Why | socket | tlsIo | peerClosed | backpressure | connect | tlsHandshake | app | shutdown
+inductive Why | socket | tlsIo | peerClosed | backpressure | connect | tlsHandshake | app | shutdown | timeout
   deriving DecidableEq, Repr
 
 /-- externally visible actions of the I/O thread for this session, in program order -/
@@ -72,7 +72,14 @@ structure Cfg where
   The code as it is issues the MOD unconditionally (`false`, regenerated from the source); the flag exists so that the model
   follows the source if that changes, and so that T3 can say which behaviour it needs. -/
   modSkipsUnchanged : Bool := Gen.TcpSession.updateInterestSkipsUnchangedMask
+  /-- `readAvail`'s loop is the unconditional `for (;;)` that ends only at EAGAIN / WANT_* / EOF / error — in level-triggered mode
+  too (`true`, regenerated from the source). `false` = the loop is conditioned on `_config.useEdgeTriggered`: in level-triggered
+  mode ONE read per readiness notification. The model follows the source; T4 says which behaviour it needs. -/
+  readDrainsLT : Bool := Gen.TcpSession.readAvailDrainsLevelTriggered
   deriving Repr
+
+/-- does `readAvail` go on reading after a data-returning read? -/
+def Cfg.readDrains (cfg : Cfg) : Bool := cfg.edge || cfg.readDrainsLT
 
 structure St where
   tls : Tls := .none
@@ -226,7 +233,8 @@ def classifyR (ssl : Bool) : RAns → RClass
   | .eof => .eof
   | .err => .fail
 
-/-- mirrors tcp_engine.hpp::readAvail: read until the channel says "nothing more now" or the session closes.
+/-- mirrors tcp_engine.hpp::readAvail: read until the channel says "nothing more now" or the session closes (`cfg.readDrains`,
+the loop shape extracted from the source; otherwise one read per call).
 Returns the unconsumed answers. A missing answer ends the loop like EAGAIN (no state change). -/
 def readAvail (cfg : Cfg) (s : St) : List RAns → R × List RAns
   | [] => ((s, [.read (s.tls == .open) cfg.ioReadChunk]), [])
@@ -236,8 +244,10 @@ def readAvail (cfg : Cfg) (s : St) : List RAns → R × List RAns
     match classifyR ssl a with
     | .got bs =>
       let s1 := { s with receivedRev := bs :: s.receivedRev, deliveredRev := bs :: s.deliveredRev }
-      let r := readAvail cfg s1 rest
-      ((r.1.1, o :: .deliver bs :: r.1.2), r.2)
+      if cfg.readDrains then
+        let r := readAvail cfg s1 rest
+        ((r.1.1, o :: .deliver bs :: r.1.2), r.2)
+      else ((s1, [o, .deliver bs]), rest)
     | .block none => ((s, [o]), rest)
     | .block (some tw) =>
       let r := updateInterest cfg { s with tlsWantWrite := tw }
@@ -322,17 +332,34 @@ def connectCheck (s : St) (c : CAns) : R :=
     | .notYet => (s, [.soError])
     | .failed => let r := closeNow s .connect; (r.1, .soError :: r.2)
 
+/-- `CloseOrigin` of a `Cmd::Close` as far as the Close arm of `process()` looks at it -/
+inductive Origin | app | connectTimeout | handshakeTimeout | writeStall
+  deriving DecidableEq, Repr
+
+/-- the stale-timeout guards of the Close arm of `process()`: a timer-originated close is dropped when the condition it was armed
+for no longer holds (`if (!s->connectPending) break;` / `if (s->tlsState != TlsState::Handshake) break;` / `if (s->wq.empty()) break;`) -/
+def closeGuardSkips (s : St) : Origin → Bool
+  | .app => false
+  | .connectTimeout => !s.connectPending
+  | .handshakeTimeout => s.tls != .handshake
+  | .writeStall => s.wq.isEmpty
+
 /-- inputs of the session: commands taken from the command queue and epoll events, each with the environment's answers -/
 inductive In
   | cmdSend (p : Bytes) (a : WAns)                   -- `send(sid, p)` (n == 0: nothing is enqueued) → `Cmd::Send` arm of `process()` → `doSend`
-  | cmdClose (w : Why)                               -- `Cmd::Close` arm / shutdownDrain → the session is closed
+  | cmdClose (w : Why) (o : Origin)                  -- `Cmd::Close` arm of `process()`: stale-timeout guard, then `closeNow`
+  | shutdown (residual : List Bytes)                 -- `shutdownDrain`: the session is closed; `residual` = payloads of the Send commands
+                                                     -- still in `_cmds` at the residual swap (accepted by `enqueue`, never dispatched)
   | connectCheck (c : CAns)
   | event (ev : Ev) (soOk : Bool) (c : CAns) (h : HAns) (rs : List RAns) (ws : List WAns)
   deriving Repr
 
 def step (cfg : Cfg) (s : St) : In → R
   | .cmdSend p a => if p.isEmpty then (s, []) else doSend cfg s p a
-  | .cmdClose w => closeNow s w
+  | .cmdClose w o => if closeGuardSkips s o then (s, []) else closeNow s w
+  | .shutdown residual =>
+    let r := closeNow s .shutdown
+    ({ r.1 with acceptedRev := (residual.filter (!·.isEmpty)).reverse ++ r.1.acceptedRev }, r.2)
   | .connectCheck c => connectCheck s c
   | .event ev soOk c h rs ws => onSession cfg s ev soOk c h rs ws
 
@@ -384,6 +411,7 @@ structure Q where
   owner : Option Nat := none     -- `_cmdMutex` owner: sender tid, or `thr.length` for the I/O thread
   cmds : List Cmd := []          -- `_cmds`
   taken : List Cmd := []         -- commands handed to the dispatch loop so far, in dispatch order
+  ioTmp : Option (List Cmd) := none   -- only when the swap is NOT under the mutex: what `process()` has read and not yet cleared
   deriving Repr
 
 /-- overwrite-or-append at position `pos` (what a store at a stale end position does) -/
@@ -396,9 +424,11 @@ inductive Actor | sender (t : Tid) | io
 
 def setThr (q : Q) (t : Tid) (th : Thr) : Q := { q with thr := q.thr.set t th }
 
-/-- one scheduler step. `locking` is the translator fact "push_back happens under `_cmdMutex`". A choice that is not
+/-- one scheduler step. `locking` is the translator fact "push_back happens under `_cmdMutex`", `swapLocked` the fact
+"`q.swap(_cmds)` in `process()` happens under `_cmdMutex`": then lock, swap, unlock are one critical section, enabled when the mutex
+is free; otherwise the swap is the two memory steps it consists of (read the contents, then clear) at any time. A choice that is not
 enabled (mutex held by someone else, unknown thread) is a stutter. -/
-def step (locking : Bool) (q : Q) : Actor → Q
+def step (locking swapLocked : Bool) (q : Q) : Actor → Q
   | .sender t =>
     match q.thr[t]? with
     | none => q
@@ -413,12 +443,17 @@ def step (locking : Bool) (q : Q) : Actor → Q
       | .stored =>
         setThr { q with owner := if locking then none else q.owner } t { next := th.next + 1, pc := .idle }
   | .io =>
-    -- process(): lock, swap, unlock are one critical section; modelled as one step enabled when the mutex is free
-    if q.owner.isNone then { q with taken := q.taken ++ q.cmds, cmds := [] } else q
+    if swapLocked then
+      -- process(): lock, swap, unlock are one critical section; modelled as one step enabled when the mutex is free
+      if q.owner.isNone then { q with taken := q.taken ++ q.cmds, cmds := [] } else q
+    else
+      match q.ioTmp with
+      | none => { q with ioTmp := some q.cmds }
+      | some l => { q with taken := q.taken ++ l, cmds := [], ioTmp := none }
 
-def run (locking : Bool) (q : Q) : List Actor → Q
+def run (locking swapLocked : Bool) (q : Q) : List Actor → Q
   | [] => q
-  | a :: as => run locking (step locking q a) as
+  | a :: as => run locking swapLocked (step locking swapLocked q a) as
 
 def init (n : Nat) : Q := { thr := List.replicate n {} }
 
@@ -426,5 +461,77 @@ def init (n : Nat) : Q := { thr := List.replicate n {} }
 def seqOf (t : Tid) (l : List Cmd) : List Nat := (l.filter (·.1 == t)).map (·.2)
 
 end Enq
+
+/-! ## `EventBatchProcessor::processBatch` (batched loop): the order in which one `epoll_wait` batch is handled -/
+
+/-- mirrors event_batch_processor.hpp::processBatch: one pass over the batch handles the special fds (eventfd, timerfd) at once and
+appends every other event to `normalEvents`; a second pass handles those, in batch order -/
+def batchOrder {α : Type} (special : α → Bool) (evs : List α) : List α :=
+  evs.filter special ++ evs.filter (fun e => !special e)
+
+/-! ## The receive side of the environment (whole-history T4)
+
+What the peer has sent and the engine has not read yet sits in two places: the kernel socket buffer (`kern`, one entry per TLS
+record / TCP segment) — the ONLY thing `epoll` looks at — and, on a TLS session, the plaintext of a record that `SSL_read` has
+already pulled out of the kernel but not yet returned because the caller's buffer was smaller (`buf`). No epoll event ever
+announces `buf`. -/
+namespace Rd
+
+structure Env where
+  kern : List Bytes := []
+  buf : Bytes := []
+  deriving Repr
+
+/-- `b` cut into reads of capacity `cap` (fuel-bounded by the length) -/
+def chunksF (cap : Nat) : Nat → Bytes → List Bytes
+  | 0, _ => []
+  | f + 1, b => if b.isEmpty then [] else b.take cap :: chunksF cap f (b.drop cap)
+
+def chunks (cap : Nat) (b : Bytes) : List Bytes := chunksF cap b.length b
+
+/-- everything `recv` / `SSL_read` answers when called again and again with capacity `cap`, up to and including the first
+"nothing more now": the buffered plaintext first, then record by record, then EAGAIN / WANT_READ -/
+def Env.answers (ssl : Bool) (cap : Nat) (e : Env) : List RAns :=
+  ((chunks cap e.buf ++ (e.kern.map (chunks cap)).flatten).map RAns.data) ++ [if ssl then .wantR else .again]
+
+/-- all bytes the environment holds for the session, in stream order -/
+def Env.content (e : Env) : Bytes := e.buf ++ e.kern.flatten
+
+/-- the environment after ONE `SSL_read` of capacity `cap` (TLS: a whole record leaves the kernel buffer) -/
+def Env.afterOneSslRead (cap : Nat) (e : Env) : Env :=
+  if !e.buf.isEmpty then { e with buf := e.buf.drop cap }
+  else match e.kern with
+    | [] => e
+    | r :: rs => { kern := rs, buf := r.drop cap }
+
+/-- epoll (level-triggered) reports the session readable iff the KERNEL buffer is non-empty -/
+def Env.epollIn (e : Env) : Bool := !e.kern.isEmpty
+
+/-- the closed receive-side system: the peer appends records to the kernel buffer, epoll wakes the I/O thread only while the
+kernel buffer is non-empty, a wake-up is one `readAvail` call answered by the environment -/
+inductive Act
+  | peerWrite (r : Bytes)
+  | wake
+  deriving Repr
+
+structure Sys where
+  s : St
+  e : Env := {}
+  sent : Bytes := []      -- ghost: everything the peer has written so far
+
+def Sys.step (cfg : Cfg) (y : Sys) : Act → Sys
+  | .peerWrite r => { y with e := { y.e with kern := y.e.kern ++ [r] }, sent := y.sent ++ r }
+  | .wake =>
+    if y.e.epollIn then
+      let r := readAvail cfg y.s (y.e.answers (y.s.tls == .open) cfg.ioReadChunk)
+      -- the drain loop consumes every answer (the environment is empty afterwards); one read per wake-up consumes one
+      { y with s := r.1.1, e := if cfg.readDrains then {} else y.e.afterOneSslRead cfg.ioReadChunk }
+    else y      -- epoll is silent: no wake-up happens
+
+def Sys.run (cfg : Cfg) (y : Sys) : List Act → Sys
+  | [] => y
+  | a :: as => Sys.run cfg (Sys.step cfg y a) as
+
+end Rd
 
 end Iora.Tcp
